@@ -107,3 +107,25 @@ Lemma surface_repeated_value ctx base i ts p v :
 Proof.
   intros t. simpl. rewrite !in_app_iff. simpl. rewrite ?in_app_iff. simpl. tauto.
 Qed.
+
+(* one node described by two node objects with the same @id (each holding part of the properties; the types stated once
+   or twice): the same triples *)
+Lemma denote_types_props ctx base i ts ps :
+  denote_node ctx base (SNode i ts ps) = map (fun t => (expand ctx base i, "@type"%string, VStr (expand ctx base t))) ts ++ denote_node ctx base (SNode i [] ps).
+Proof. reflexivity. Qed.
+Lemma denote_props_app ctx base i ps1 ps2 t :
+  In t (denote_node ctx base (SNode i [] (ps1 ++ ps2))) <->
+  In t (denote_node ctx base (SNode i [] ps1)) \/ In t (denote_node ctx base (SNode i [] ps2)).
+Proof.
+  induction ps1 as [|[p vs] r IH]; [simpl; tauto|].
+  simpl in *. rewrite !in_app_iff. rewrite IH. tauto.
+Qed.
+Lemma surface_split_description ctx base i ts ts2 ps1 ps2 : (forall t, In t ts2 -> In t ts) ->
+  same_members (denote_node ctx base (SNode i ts (ps1 ++ ps2)))
+               (denote_node ctx base (SNode i ts ps1) ++ denote_node ctx base (SNode i ts2 ps2)).
+Proof.
+  intros Hts t. rewrite !(denote_types_props ctx base i ts), (denote_types_props ctx base i ts2). rewrite !in_app_iff.
+  rewrite (denote_props_app ctx base i ps1 ps2 t). rewrite !in_map_iff. split.
+  - intros [H|[H|H]]; auto.
+  - intros [[H|H]|[[x [E Hx]]|H]]; auto. left. exists x. auto.
+Qed.
